@@ -36,9 +36,8 @@ theorem C10_server_done_means_drained (limit : Option Nat) (respCap tcap : Nat) 
     · rw [heq] at hend ⊢
       rw [pskFinish_done, pskRet_done] at hend
       have hspec := (requestsPollNext_spec c.now (pollFuel { c.s with woken := false }) { c.s with woken := false }).2
-      obtain ⟨born, hreach, _⟩ := sinv_reach true limit respCap tcap coupled ops
-      have hinv := (sinv_closed true c.now born).requestsPollNext (pollFuel { c.s with woken := false }) { c.s with woken := false }
-        ((sinv_closed true c.now born).inert _ _ (by constructor <;> rfl) (hc ▸ hreach))
+      have hinv := (sinv_closed true c.now).requestsPollNext (pollFuel { c.s with woken := false }) { c.s with woken := false }
+        ((sinv_closed true c.now).inert _ _ (by constructor <;> rfl) (hc ▸ sinv_reach true limit respCap tcap coupled ops))
       have hdd := (dd_closed c.s.done c.s.dropped c.now).requestsPollNext (pollFuel { c.s with woken := false })
         { c.s with woken := false } ⟨rfl, rfl⟩
       generalize requestsPollNext (pollFuel { c.s with woken := false }) { c.s with woken := false } c.now = p at *
